@@ -79,9 +79,10 @@ KANI_UNITS['mirbin'] = {
   'functions': ['Statement::binary_unwrapped', 'Statement::flexible_order_binary', 'Statement::binary_flexible_unwrapped',
                 'Expression::cmp'],
   'harnesses': {
-    'binary_unwrapped_same_value': {'tier': 'quick', 'complete': True},
-    'flexible_order_binary_same_value': {'tier': 'quick', 'complete': True},
-    'binary_flexible_unwrapped_same_value': {'tier': 'quick', 'complete': True},
+    'binary_unwrapped_shape': {'tier': 'quick', 'complete': True},
+    'flexible_order_binary_shape': {'tier': 'quick', 'complete': True},
+    'binary_flexible_unwrapped_is_the_composition': {'tier': 'quick', 'complete': True},
+    'exchanged_operator_same_value': {'tier': 'quick', 'complete': True},
     'flexible_order_binary_is_order_insensitive_for_commutative_ops': {'tier': 'quick', 'complete': True},
   },
 }
@@ -98,11 +99,35 @@ KANI_UNITS['induction'] = {
   'harnesses': {
     'merge_invariant_addition_same_value': {'tier': 'quick', 'complete': True},
     'merge_invariant_multiplication_same_value': {'tier': 'quick', 'complete': True},
-    'merge_constant_operation_into_derived_same_value': {'tier': 'quick', 'complete': True},
-    'merge_variable_addition_into_derived_same_value': {'tier': 'quick', 'complete': True},
+    'merge_constant_addition_into_derived_same_value': {'tier': 'quick', 'complete': True},
+    'merge_constant_multiplication_into_derived_shape': {'tier': 'quick', 'complete': True},
+    'merge_variable_addition_into_derived_componentwise': {'tier': 'quick', 'complete': True},
     'guard_invert_is_negation_and_to_op_is_faithful': {'tier': 'quick', 'complete': True},
     'get_guard_operator_is_the_continue_condition': {'tier': 'quick', 'complete': True},
   },
+}
+
+_OPS = ['mul', 'div', 'mod', 'plus', 'minus', 'land', 'lor', 'shl', 'shr', 'xor', 'lt', 'le', 'gt', 'ge', 'eq', 'ne']
+_HELPER_SPLICES = [('crates/samlang-heap/src/lib.rs', 'kx/harness/samlang-heap/lib.rs', 'verif_kani'),
+                   ('crates/samlang-ast/src/mir.rs', 'kx/harness/samlang-ast/mir.rs', 'verif_kani')]
+KANI_UNITS['wasmops'] = {
+  'crate': 'samlang-ast',
+  'module': 'wasm::verif_kani',
+  'splices': _HELPER_SPLICES + [('crates/samlang-ast/src/wasm.rs', 'kx/harness/samlang-ast/wasm.rs', 'verif_kani')],
+  'functions': ['wasm::InlineInstruction::pretty_print (Binary arm)'],
+  'jobs': 8,
+  'timeout_s': {'quick': 600, 'thorough': 1800},
+  'harnesses': {('wasm_op_' + o): {'tier': 'quick', 'complete': True} for o in _OPS},
+}
+
+KANI_UNITS['tsops'] = {
+  'crate': 'samlang-ast',
+  'module': 'lir::verif_kani',
+  'splices': _HELPER_SPLICES + [('crates/samlang-ast/src/lir.rs', 'kx/harness/samlang-ast/lir.rs', 'verif_kani')],
+  'functions': ['lir::Statement::pretty_print_internal (Binary arm)'],
+  'jobs': 8,
+  'timeout_s': {'quick': 600, 'thorough': 1800},
+  'harnesses': {('ts_op_' + o): {'tier': 'quick', 'complete': True} for o in _OPS},
 }
 
 PROPERTIES = {
@@ -115,10 +140,32 @@ PROPERTIES = {
   },
   'C05': {
     'verus': ['lexer', 'tripcount'],
-    'kani': ['fold'],
+    'kani': ['fold', 'induction'],
+    # only the harnesses whose failure is a compiler crash (panic) on some input
+    'kani_only': {'fold': ['fold_mul', 'fold_plus', 'fold_minus', 'fold_shl', 'fold_shr', 'fold_land', 'fold_lor', 'fold_xor',
+                           'fold_comparisons', 'fold_div_no_panic_and_traps_kept', 'fold_mod_no_panic_and_traps_kept',
+                           'merge_plus_same_value', 'merge_mul_result_form', 'merge_eq_ne_same_value',
+                           'merge_ordering_same_value_no_overflow'],
+                  'induction': ['merge_invariant_addition_same_value', 'merge_invariant_multiplication_same_value',
+                                'merge_constant_addition_into_derived_same_value', 'merge_constant_multiplication_into_derived_shape',
+                                'merge_variable_addition_into_derived_componentwise']},
     'level': 'proof',
     'scope': 'kernels only: totality (no panic, termination, bump within bounds and on a char boundary) of the hand-written '
              'lexer scanners; panic-freedom of constant folding and trip-count analysis; parser / checker / printer not covered',
+  },
+  'C01': {
+    'verus': [],
+    'kani': ['wasmops'],
+    'level': 'proof',
+    'scope': 'one kernel only: the WebAssembly instruction selected for each of the 16 operators (and ref.eq for reference '
+             'equality) by the real printer; every lowering / specialisation pass and the runtime library are not covered',
+  },
+  'C04': {
+    'verus': ['opsem'],
+    'kani': ['tsops', 'wasmops'],
+    'level': 'proof',
+    'scope': 'one kernel only: per operator, the TypeScript template and the WebAssembly instruction emitted by the two real '
+             'printers denote the same function on non-excluded operands; runtime libraries, string constants, Vec are not covered',
   },
   'C10': {
     'verus': ['depgraph'],
@@ -188,6 +235,20 @@ STANDING_ASSUMPTIONS = {
     'source text shorter than 2 GiB (i32::MAX bytes): columns are u32 and the escape counter is i32',
     'R3 stubs: str::starts_with on ASCII patterns = first bytes; from_utf8_lossy/trim/post_process_block_comment are total',
     'u8::is_ascii_whitespace = {space, \\t, \\n, form feed, \\r} (std documentation)',
+  ],
+  'wasmops': [
+    'CBMC 6.11 / Kani 0.68; std::hash::RandomState::new stubbed (Heap / SymbolTable are only carried, built empty by struct literals spliced under cfg(kani))',
+    'the expected table (operator -> WebAssembly instruction with the meaning of wasm_sem) is the WebAssembly specification written down in the harness',
+  ],
+  'tsops': [
+    'CBMC 6.11 / Kani 0.68; std::hash::RandomState::new stubbed; operands are two one-letter variables typed int or Str',
+    'the expected templates are compared as text; their JavaScript meaning is stated in Verus unit opsem',
+  ],
+  'opsem': [
+    'ECMA-262 semantics of + - * / % and relational operators on Numbers holding 32-bit integers, written as spec functions (a model of JavaScript, not of code)',
+    'double-precision a / b has the same floor as the real quotient for |a|, |b| < 2^31 (argued in the unit header)',
+    'bitwise and shift operators (& | ^ << >>>) are not compared: the compiler never emits them for source programs',
+    'vstd rust_div / rust_rem = truncating division (proved in unit foldv)',
   ],
   'pstr': [
     'CBMC 6.11 / Kani 0.68 bit-precise semantics of Rust MIR; little-endian x86_64 layout of the union',
